@@ -874,6 +874,13 @@ static int _fetch_and_process_packet(OggVorbis_File *vf,
           vf->current_serialno=vf->os.serialno;
           vf->current_link++;
           link=0;
+
+          /* _fetch_headers has already submitted every page it read
+             to the stream state, the last one (still in og)
+             included; submitting that page a second time below
+             would look like a gap in the page sequence and surface
+             as a spurious OV_HOLE at every link boundary */
+          continue;
         }
       }
     }
